@@ -10,17 +10,18 @@ PKGS=". ./vfs/memfs ./vfs/orefafs ./vfs/rofs ./vfs/basepathfs ./vfs/failfs ./idm
 for D in "$@"; do
   N=$(basename $D)
   cd $WT && git checkout -q -- . && git clean -fdq
-  RUN=$(grep -v "^#" $D/RUN.txt | grep -E "go (test|run)" | head -1 | sed "s/^ *cd [^&]*&& *//")
+  RUN=$(grep -v "^#" $D/RUN.txt | grep -E "go (test|run)" | head -1 | sed "s/^ *cd [^&]*&& *//; s/^ *export [^&]*&& *//")
   PKGDIR=$(echo "$RUN" | awk '{print $NF}')
+  PKGDIR=${PKGDIR%/}
   case "$PKGDIR" in ./*) DEST="${PKGDIR#./}/zz_demo_test.go";; *) DEST="zz_demo_test.go";; esac
   DEMO=$(ls $D/*_test.go 2>/dev/null | head -1)
   if ! git apply $D/patch.diff; then echo "$N: PATCH-DOES-NOT-APPLY"; continue; fi
   B1=ok; go build ./... >/dev/null 2>&1 || B1=FAIL
   B2=ok; go build -tags avfs_setostype ./... >/dev/null 2>&1 || B2=FAIL
   T=ok; go test -vet=off -count=1 $PKGS >/tmp/confirm_t.log 2>&1 || T=FAIL
-  cp $DEMO $WT/$DEST
+  mkdir -p $(dirname $WT/$DEST); cp $DEMO $WT/$DEST
   DM=pass; (cd $WT && timeout 120 bash -c "$RUN" >/tmp/confirm_d1.log 2>&1) || DM=fail
-  rm -f $WT/$DEST; git checkout -q -- .; cp $DEMO $WT/$DEST
+  rm -f $WT/$DEST; git checkout -q -- .; mkdir -p $(dirname $WT/$DEST); cp $DEMO $WT/$DEST
   DC=pass; (cd $WT && timeout 120 bash -c "$RUN" >/tmp/confirm_d2.log 2>&1) || DC=fail
   rm -f $WT/$DEST
   echo "$N: build=$B1 build-tag=$B2 suite=$T demo-with-patch=$DM demo-without=$DC   [$RUN -> $DEST]"
